@@ -149,7 +149,7 @@ func propC30(c *Check) {
 		ok := len(signs) == 1
 		if ok {
 			a := signs[0].Common().Args
-			data := func(v ssa.Value) bool { p, isPhi := v.(*ssa.Phi); return isPhi && p.Comment == "data" }
+			data := func(v ssa.Value) bool { p, isPhi := v.(*ssa.Phi); return isPhi && phiIs(p, "data") }
 			ok = Path(Param("node"), "Signer.PrivateSpendKey")(a[0]) && Call("crypto.Blake3Hash", data)(a[1])
 			if ok {
 				hv := a[1].(*ssa.Call).Call.Args[0]
